@@ -1,6 +1,7 @@
 import DarkluaModel.C09.Main
 import DarkluaModel.C09.Globals
 import DarkluaModel.C09.SelfWitness
+import DarkluaModel.C09.SortOrder
 /-!
 # C09 — theorems: renaming variables never changes which binding a name refers to
 
@@ -118,6 +119,41 @@ theorem rename_inv (cfg : Config) (es : List Event) :
 
 example : (renameRuleState ⟨[], false, true⟩
     [.push, .push, .insertLocal ['x'], .insertLocal ['y'], .pop, .insertLocal ['z']]).pool = [['b']] := by
+  decide
+
+/-- On names over the generated alphabet the re-sort of `pop` yields a list that depends only on
+the *set* of names: any two orders in which `HashMap::into_values` may hand back the freed names
+give the same pool. -/
+theorem sortDesc_order_independent (l₁ l₂ : List Name) (h : l₁.Perm l₂) (ha : ∀ z ∈ l₁, Alpha z) :
+    sortDesc l₁ = sortDesc l₂ := by
+  have ha2 : ∀ z ∈ l₂, Alpha z := fun z hz => ha z (h.mem_iff.mpr hz)
+  exact List.Perm.eq_of_pairwise (le := Ge) (fun a b _ _ h1 h2 => h1.antisymm h2)
+    (sortDesc_sorted l₁ ha) (sortDesc_sorted l₂ ha2)
+    ((sortDesc_perm l₁).trans (h.trans (sortDesc_perm l₂).symm))
+
+/-- In every reachable state, `pop` computes the same pool whatever the iteration order of the
+dropped dictionary (the model iterates in insertion order; `HashMap` in an arbitrary one). -/
+theorem pop_order_independent (cfg : Config) (es : List Event) (d : Dict) (rest : List Dict)
+    (hst : (renameRuleState cfg es).stack = d :: rest) (vs : List Name) (hv : vs.Perm (freed d)) :
+    sortDesc ((renameRuleState cfg es).pool ++ vs) = (renameRuleState cfg es).pop.pool := by
+  have hinv := (rename_inv cfg es).2.1
+  have hpop : (renameRuleState cfg es).pop.pool
+      = sortDesc ((renameRuleState cfg es).pool ++ freed d) := by
+    unfold State.pop; rw [hst]
+  rw [hpop]
+  apply sortDesc_order_independent _ _ (List.Perm.append_left _ hv)
+  intro z hz
+  have hz' : z ∈ liveGenerated (renameRuleState cfg es).stack ++ (renameRuleState cfg es).pool := by
+    rcases List.mem_append.mp hz with h | h
+    · exact List.mem_append.mpr (Or.inr h)
+    · refine List.mem_append.mpr (Or.inl ?_)
+      rw [hst]
+      simp only [liveGenerated, List.flatMap_cons, List.mem_append]
+      exact Or.inl (hv.mem_iff.mp h)
+  obtain ⟨_, q, _, rfl⟩ := hinv z hz'
+  exact alpha_display q
+
+example : sortDesc [['a'], ['_'], ['B'], ['a', 'a'], ['0', 'x']] = [['0', 'x'], ['_'], ['B'], ['a', 'a'], ['a']] := by
   decide
 
 /-- No new name is a keyword, a listed global, a kept local-function name or a global the file
